@@ -127,6 +127,9 @@ func (c *l3Collector) run(r *ev.Run) map[string]int64 {
 			key = append(key, w...)
 		}
 		r.NontrivialBytes(key)
+		if i%997 == 0 && r.WantSample() {
+			r.Sample(map[string]string{"layer": j.group, "case": j.desc, "pkScript": disasm(j.sp.PrevOuts[j.sp.Idx].PkScript), "scriptSig": disasm(j.sp.Tx.TxIn[j.sp.Idx].SignatureScript)})
+		}
 		acc := int64(0)
 		for _, fs := range j.sets {
 			s := *j.sp
@@ -525,9 +528,13 @@ func l3Multisig(c *l3Collector, thorough bool) {
 			{"3 kA kB kC 3 CHECKMULTISIG NOT 0 NOT BOOLAND", cat([]byte{0x53}, push(keyA.comp), push(keyB.comp), push(keyC.comp), []byte{0x53, refscript.OP_CHECKMULTISIG, refscript.OP_NOT, 0x00, refscript.OP_NOT, refscript.OP_BOOLAND})},
 		} {
 			stripped, _ := refscript.FindAndDelete(form.script, []byte{0x00})
-			for dn, code := range map[string][]byte{"script-as-is": form.script, "script-with-OP_0-removed": stripped} {
+			codes := map[string][]byte{"script-as-is": form.script, "script-with-OP_0-removed": stripped}
+			for _, dn := range sortedKeys(codes) {
+				code := codes[dn]
 				sigC := append(signECDSA(keyC, env.digest(wk.sv, code, 0x01)).der(), 0x01)
-				for gn, g := range map[string][]byte{"non-DER": {0x30, 0x01, 0x02, 0x01}, "valid-DER-wrong": append(signECDSA(keyD, env.digest(wk.sv, code, 0x01)).der(), 0x01)} {
+				gs := map[string][]byte{"non-DER": {0x30, 0x01, 0x02, 0x01}, "valid-DER-wrong": append(signECDSA(keyD, env.digest(wk.sv, code, 0x01)).der(), 0x01)}
+				for _, gn := range sortedKeys(gs) {
+					g := gs[gn]
 					items := [][]byte{{}, {}, g, sigC}
 					p, sg, w := wrap(wk, form.script, items)
 					c.add("L3/multisig-fad-empty/"+wk.name, fmt.Sprintf("%s sigs=[empty %s sigC] sigC signed over %s", form.name, gn, dn), env.spend(p, sg, w), allFlagSets)
